@@ -288,6 +288,7 @@ package emitter
 //@   loop 1
 //@     invariant [C05:unvisited-init] len(unvisited) == $n && (forall k int :: {indom(unvisited, k)} indom(unvisited, k) <==> has($visited, k))
 //@     invariant [C05:unvisited-init] forall k int :: {has($visited, k)} has($visited, k) ==> indom(chunks, k)
+//@     invariant [C05:unvisited-init] forall k int :: {unvisited[k]} indom(unvisited, k) ==> unvisited[k]
 //@   loop 2
 //@     use card(unvisited)
 //@     invariant [C05:order-inv] 1 <= len(chunkIDs) && len(chunkIDs) <= len(chunks) && chunkIDs[0] == 0 && 1 <= i && i <= len(chunks)
@@ -295,6 +296,7 @@ package emitter
 //@     invariant [C05:order-inv] forall a int, b int :: {chunkIDs[a], chunkIDs[b]} (0 <= a && a < b && b < len(chunkIDs)) ==> chunkIDs[a] != chunkIDs[b]
 //@     invariant [C05:order-inv] forall k int :: {indom(unvisited, k)} indom(unvisited, k) ==> (i <= k && k < len(chunks))
 //@     invariant [C05:order-inv] len(unvisited) == len(chunks) - len(chunkIDs)
+//@     invariant [C05:order-inv] forall k int :: {unvisited[k]} indom(unvisited, k) ==> unvisited[k]
 //@     decreases len(chunks) - len(chunkIDs)
 //@   loop 3
 //@     use card(unvisited)
@@ -303,6 +305,7 @@ package emitter
 //@     invariant [C05:order-inv] forall a int :: {chunkIDs[a]} (0 <= a && a < len(chunkIDs)) ==> (0 <= chunkIDs[a] && chunkIDs[a] < len(chunks) && !indom(unvisited, chunkIDs[a]))
 //@     invariant [C05:order-inv] forall a int, b int :: {chunkIDs[a], chunkIDs[b]} (0 <= a && a < b && b < len(chunkIDs)) ==> chunkIDs[a] != chunkIDs[b]
 //@     invariant [C05:order-inv] forall k int :: {indom(unvisited, k)} indom(unvisited, k) ==> (i <= k && k < len(chunks))
+//@     invariant [C05:order-inv] forall k int :: {unvisited[k]} indom(unvisited, k) ==> unvisited[k]
 //@     decreases len(chunks) - i
 //@ end
 
@@ -477,6 +480,7 @@ package emitter
 //@   useret ElifSemDef(stmt, 0, result0[len(old(remainingChunks)) + (i == len(curChunk.statements) - 1 ? 0 : 1)].id + 1,
 //@                  (stmt.ElseConsequence != nil ? BehOf(result0[len(old(remainingChunks)) + (i == len(curChunk.statements) - 1 ? 0 : 1)].id + 1 + len(stmt.ElifConsequences)) : K(curChunk.returnID)))
 //@   ensures [C01:if-fresh] Appended(result0, old(remainingChunks), old(*chunkCounter), *chunkCounter)
+//@   ensures [C01,C04:if-len] len(result0) >= len(old(remainingChunks)) + 1 + (i == len(curChunk.statements) - 1 ? 0 : 1)
 //@   ensures [C01:if-fresh2] forall j int :: {result0[j]} (len(old(remainingChunks)) <= j && j < len(result0)) ==> (fresh(result0[j]) && ChunkObjsAlloc(result0[j]))
 //@   ensures [C01:if-post] i < len(curChunk.statements) - 1 ==> (PostChunkOK(result0[len(old(remainingChunks))], curChunk, i, old(curChunk.returnID)) && curChunk.returnID == result0[len(old(remainingChunks))].id)
 //@   ensures [C01:if-last] i == len(curChunk.statements) - 1 ==> curChunk.returnID == old(curChunk.returnID)
@@ -521,6 +525,19 @@ package emitter
 //@ pred SwitchStmtOK(stmt *ast.SwitchStatement) = stmt != nil && len(stmt.Cases) >= 0
 //@   && (forall k int :: {stmt.Cases[k]} (0 <= k && k < len(stmt.Cases)) ==> (stmt.Cases[k] != nil && stmt.Cases[k].Body != nil))
 //@   && ((exists k int :: 0 <= k && k < len(stmt.Cases) && stmt.Cases[k].IsDefault) ==> stmt.DefaultCase != nil)
+//@   && (forall a int, b int :: {stmt.Cases[a], stmt.Cases[b]} (0 <= a && a < b && b < len(stmt.Cases)) ==> !(stmt.Cases[a].IsDefault && stmt.Cases[b].IsDefault))
+
+// C03: the chunk a destination id of the switch stands for: the chunks made for the switch have consecutive ids, the
+// switch chunk (id sid) sits at index p of the pending list
+//@ pred SwChunk(rem seq[*chunk], p int, sid int, id int) = rem[p + (id - sid)]
+// every chunk made for the switch has the next id, returns after the switch and is still to be lowered
+//@ pred SwChunks(rem seq[*chunk], p int, sid int, ret int) = forall m int :: {rem[m]} (p < m && m < len(rem)) ==> (rem[m] != nil && rem[m].id == sid + (m - p) && rem[m].returnID == ret && rem[m].branchBehavior == nil)
+//@ pred SwDestOK(rem seq[*chunk], p int, sid int, id int) = sid < id && p + (id - sid) < len(rem)
+// the body case k leads to: the body of the next case that has one; nothing when there is none
+//@ pred SwBodyOK(c *chunk, stmt *ast.SwitchStatement, k int) = (NB(stmt, k) < len(stmt.Cases) ? c.statements == stmt.Cases[NB(stmt, k)].Body.Statements : len(c.statements) == 0)
+//@ pred SwEntryOK(e *switchCaseBranch, stmt *ast.SwitchStatement, k int, rem seq[*chunk], p int, sid int) = e != nil && e.comparisonValue == stmt.Cases[k].Value
+//@   && SwDestOK(rem, p, sid, e.destChunkID) && SwBodyOK(SwChunk(rem, p, sid, e.destChunkID), stmt, k)
+//@ pred SwP(rem0 seq[*chunk], c *chunk, si int) = len(rem0) + (si == len(c.statements) - 1 ? 0 : 1)
 
 //@ func createSwitchStatementChunks
 //@   requires SwitchStmtOK(stmt) && curChunk != nil && chunkCounter != nil && *chunkCounter >= 0 && 0 <= statementIndex && statementIndex < len(curChunk.statements)
@@ -529,10 +546,51 @@ package emitter
 //@   ensures [C04:switch-pending] forall j int :: {result0[j]} (len(old(remainingChunks)) <= j && j < len(result0)) ==> PendingOK(result0[j], *chunkCounter)
 //@   ensures [C04:switch-ids] IdOK(result2, *chunkCounter + 1) && result1 != nil && fresh(result1) && 0 <= result1.destChunkID && result1.destChunkID <= *chunkCounter && IdOK(curChunk.returnID, *chunkCounter + 1)
 //@   ensures [C03,C04:switch-fresh] Appended(result0, old(remainingChunks), old(*chunkCounter), *chunkCounter)
+// the statements written after the switch go to a chunk of their own (C04: nothing the author wrote is dropped)
+//@   ensures [C04:switch-len] len(result0) >= len(old(remainingChunks)) + 1 + (statementIndex == len(curChunk.statements) - 1 ? 0 : 1)
+//@   ensures [C04:switch-post] statementIndex < len(curChunk.statements) - 1 ==> PostChunkOK(result0[len(old(remainingChunks))], curChunk, statementIndex, old(curChunk.returnID))
 //@   ensures [C03,C04:switch-fresh2] forall j int :: {result0[j]} (len(old(remainingChunks)) <= j && j < len(result0)) ==> (fresh(result0[j]) && ChunkObjsAlloc(result0[j]))
+// C03: afterwards execution continues with the statement after the switch
+//@   ensures [C03:switch-ret] result2 == (statementIndex == len(curChunk.statements) - 1 ? old(curChunk.returnID) : result0[len(old(remainingChunks))].id)
+//@   ensures [C03:switch-entry] result1.destChunkID == result0[len(old(remainingChunks)) + (statementIndex == len(curChunk.statements) - 1 ? 0 : 1)].id
+//@        && result0[len(old(remainingChunks)) + (statementIndex == len(curChunk.statements) - 1 ? 0 : 1)].returnID == result2
+//@        && len(result0[len(old(remainingChunks)) + (statementIndex == len(curChunk.statements) - 1 ? 0 : 1)].statements) == 0
+// C03: a switch none of whose cases leads to a body is not rendered: every value continues after the switch
+//@   use NBDef(stmt, 0)
+//@   ensures [C03:switch-elide] (len(stmt.Cases) > 0 && NB(stmt, 0) >= len(stmt.Cases)) ==> result0[len(old(remainingChunks)) + (statementIndex == len(curChunk.statements) - 1 ? 0 : 1)].branchBehavior == nil
+// C03: otherwise the switch lists, in source order, every case value that leads to a body (its own, or the next one
+// written), each with the chunk made of that body and returning after the switch; a trailing body-less case is listed
+// (with an empty chunk) exactly when a 'default' body would otherwise run for it
+//@   exit [C03:switch-cases] !(len(stmt.Cases) > 0 && NB(stmt, 0) >= len(stmt.Cases)) ==> (switchChunk.branchBehavior == branchBehavior && branchBehavior.operand == stmt.Operand
+//@        && len(branchBehavior.cases) == LC(stmt, len(stmt.Cases))
+//@        && (forall k int :: {LC(stmt, k)} (0 <= k && k < len(stmt.Cases) && SwListed(stmt, k)) ==> (0 <= LC(stmt, k) && LC(stmt, k) < len(branchBehavior.cases) && SwEntryOK(branchBehavior.cases[LC(stmt, k)], stmt, k, result0, SwP(old(remainingChunks), curChunk, statementIndex), switchChunk.id))))
+//@   exit [C03:switch-chunks] SwChunks(result0, SwP(old(remainingChunks), curChunk, statementIndex), switchChunk.id, returnID) && switchChunk.id == result1.destChunkID && returnID == result2
+//@        && switchChunk == result0[SwP(old(remainingChunks), curChunk, statementIndex)]
+// C03: 'default', wherever it is written, runs exactly when no listed value matches: it leads to the body it shares, or,
+// without one, to the statement after the switch
+//@   exit [C03:switch-default] !(len(stmt.Cases) > 0 && NB(stmt, 0) >= len(stmt.Cases)) ==> (PD(stmt, len(stmt.Cases))
+//@        ? (branchBehavior.defaultCase != nil && SwDestOK(result0, SwP(old(remainingChunks), curChunk, statementIndex), switchChunk.id, branchBehavior.defaultCase.destChunkID)
+//@           && (forall d int :: {NB(stmt, d)} (0 <= d && d < len(stmt.Cases) && stmt.Cases[d].IsDefault && NB(stmt, d) < len(stmt.Cases)) ==> SwBodyOK(SwChunk(result0, SwP(old(remainingChunks), curChunk, statementIndex), switchChunk.id, branchBehavior.defaultCase.destChunkID), stmt, d)))
+//@        : (branchBehavior.defaultCase == nil && branchBehavior.destChunkID == returnID))
 //@   loop 1
 //@     modifies *chunkCounter, branchBehavior.defaultCase
+//@     use NBDef(stmt, i)
+//@     use NBDef(stmt, len(stmt.Cases))
+//@     use PDBase(stmt)
+//@     use PDStep(stmt, i)
+//@     use LCBase(stmt)
+//@     use LCStep(stmt, i)
+//@     invariant [C03:sw-count-inv|~switch-distinct,~sw-cases-inv,~sw-default-inv] len(pre(remainingChunks)) - 1 == SwP(old(remainingChunks), curChunk, statementIndex)
+//@     invariant [C03:sw-count-inv|~switch-distinct,~sw-cases-inv,~sw-default-inv] SwChunks(remainingChunks, SwP(old(remainingChunks), curChunk, statementIndex), switchChunk.id, returnID) && switchChunk.id == pre(*chunkCounter) && branchBehavior.operand == stmt.Operand && branchBehavior != nil
+//@     invariant [C03:sw-count-inv|~switch-distinct,~sw-cases-inv,~sw-default-inv] switchChunk.id + (len(remainingChunks) - 1 - SwP(old(remainingChunks), curChunk, statementIndex)) == *chunkCounter
+//@     invariant [C03:sw-count-inv|~switch-distinct,~sw-cases-inv,~sw-default-inv] len(branchCases) == LC(stmt, i) && processedDefaultCase == PD(stmt, i) && (i > 0 ==> (NB(stmt, 0) < len(stmt.Cases) && (len(branchCases) >= 1 || processedDefaultCase)))
+//@     invariant [C03:sw-cases-inv|split3,~switch-distinct,~sw-default-inv] forall k int :: {LC(stmt, k)} (0 <= k && k < i && SwListed(stmt, k)) ==> (0 <= LC(stmt, k) && LC(stmt, k) < len(branchCases) && SwEntryOK(branchCases[LC(stmt, k)], stmt, k, remainingChunks, SwP(old(remainingChunks), curChunk, statementIndex), switchChunk.id))
+//@     invariant [C03:sw-default-inv|split2,~switch-distinct,~sw-cases-inv,~sw-noop-inv] processedDefaultCase ? (branchBehavior.defaultCase != nil && SwDestOK(remainingChunks, SwP(old(remainingChunks), curChunk, statementIndex), switchChunk.id, branchBehavior.defaultCase.destChunkID)
+//@           && (forall d int :: {NB(stmt, d)} (0 <= d && d < i && stmt.Cases[d].IsDefault && NB(stmt, d) < len(stmt.Cases)) ==> SwBodyOK(SwChunk(remainingChunks, SwP(old(remainingChunks), curChunk, statementIndex), switchChunk.id, branchBehavior.defaultCase.destChunkID), stmt, d)))
+//@        : branchBehavior.defaultCase == nil
+//@     invariant [C03:sw-noop-inv|~switch-distinct,~sw-cases-inv,~sw-default-inv] noopChunkID != -1 ==> (SwDestOK(remainingChunks, SwP(old(remainingChunks), curChunk, statementIndex), switchChunk.id, noopChunkID) && len(SwChunk(remainingChunks, SwP(old(remainingChunks), curChunk, statementIndex), switchChunk.id, noopChunkID).statements) == 0)
 //@     invariant [C03,C04:switch-inv] 0 <= i && i <= len(stmt.Cases) && *chunkCounter >= pre(*chunkCounter)
+//@     invariant [C03,C04:switch-inv] noopChunkID == -1 || (1 <= noopChunkID && noopChunkID <= *chunkCounter)
 //@     invariant [C03,C04:switch-inv] len(remainingChunks) == len(pre(remainingChunks)) + (*chunkCounter - pre(*chunkCounter))
 //@     invariant [C03,C04:switch-inv] forall j int :: {remainingChunks[j]} {pre(remainingChunks)[j]} (0 <= j && j < len(pre(remainingChunks))) ==> remainingChunks[j] == pre(remainingChunks)[j]
 //@     invariant [C03,C04:switch-inv] forall j int :: {remainingChunks[j]} (len(pre(remainingChunks)) <= j && j < len(remainingChunks)) ==>
@@ -541,13 +599,16 @@ package emitter
 //@     invariant [C03,C04:switch-inv] IdOK(returnID, *chunkCounter + 1) && switchChunk == remainingChunks[len(pre(remainingChunks)) - 1] && len(pre(remainingChunks)) >= 1 && switchChunk.branchBehavior == nil && switchChunk.returnID == returnID && len(switchChunk.statements) == 0
 //@     invariant [C03,C04:switch-inv] forall k int :: {branchCases[k]} (0 <= k && k < len(branchCases)) ==> (branchCases[k] != nil && allocated(branchCases[k]) && 0 <= branchCases[k].destChunkID && branchCases[k].destChunkID <= *chunkCounter)
 //@     invariant [C03,C04:switch-inv] branchBehavior.defaultCase != nil ==> (allocated(branchBehavior.defaultCase) && 0 <= branchBehavior.defaultCase.destChunkID && branchBehavior.defaultCase.destChunkID <= *chunkCounter)
-//@     invariant [C03,C04:switch-inv] forall j int, j2 int :: {remainingChunks[j], remainingChunks[j2]} (len(pre(remainingChunks)) <= j && j < j2 && j2 < len(remainingChunks)) ==> remainingChunks[j].id != remainingChunks[j2].id
+//@     invariant [C03,C04:switch-distinct] forall j int, j2 int :: {remainingChunks[j], remainingChunks[j2]} (len(pre(remainingChunks)) <= j && j < j2 && j2 < len(remainingChunks)) ==> remainingChunks[j].id != remainingChunks[j2].id
 //@     decreases len(stmt.Cases) - i
 //@   loop 2
 //@     modifies *chunkCounter, branchBehavior.defaultCase
 //@     invariant [C03,C04:switch-inv] i + 1 <= j && j <= len(stmt.Cases) && 0 <= i && destChunkID == -1
 //@     invariant [C03,C04:switch-inv] remainingChunks == outer(remainingChunks) && *chunkCounter == outer(*chunkCounter) && i == outer(i)
 //@     invariant [C03,C04:switch-inv] branchCases == outer(branchCases) && branchBehavior.defaultCase == outer(branchBehavior.defaultCase) && processedDefaultCase == outer(processedDefaultCase)
+//@     use NBDef(stmt, j)
+//@     use NBDef(stmt, len(stmt.Cases))
+//@     invariant [C03:sw-count-inv|~switch-distinct,~sw-cases-inv,~sw-default-inv] forall m int :: {stmt.Cases[m]} (i <= m && m < j) ==> NB(stmt, m) == NB(stmt, j)
 //@     decreases len(stmt.Cases) - j
 //@   loop 3
 //@     modifies *chunkCounter, branchBehavior.defaultCase
@@ -555,6 +616,17 @@ package emitter
 //@     invariant [C03,C04:switch-inv] len(remainingChunks) == len(pre(remainingChunks))
 //@     invariant [C03,C04:switch-inv] forall q int :: {remainingChunks[q]} (0 <= q && q < len(remainingChunks)) ==> remainingChunks[q] == pre(remainingChunks)[q]
 //@     invariant [C03,C04:switch-inv] destChunkID == *chunkCounter && destChunkID >= 1
+//@     use NBDef(stmt, j)
+//@     use PDStep(stmt, i)
+//@     use LCStep(stmt, i)
+//@     invariant [C03:sw-count-inv|~switch-distinct,~sw-cases-inv,~sw-default-inv] outer(i) <= i && len(stmt.Cases[j].Body.Statements) > 0 && (forall m int :: {stmt.Cases[m]} (outer(i) <= m && m <= j) ==> NB(stmt, m) == j)
+//@     invariant [C03:sw-count-inv|~switch-distinct,~sw-cases-inv,~sw-default-inv] SwChunks(remainingChunks, SwP(old(remainingChunks), curChunk, statementIndex), switchChunk.id, returnID) && switchChunk.id + (len(remainingChunks) - 1 - SwP(old(remainingChunks), curChunk, statementIndex)) == *chunkCounter
+//@     invariant [C03:sw-count-inv|~switch-distinct,~sw-cases-inv,~sw-default-inv] SwDestOK(remainingChunks, SwP(old(remainingChunks), curChunk, statementIndex), switchChunk.id, destChunkID) && SwChunk(remainingChunks, SwP(old(remainingChunks), curChunk, statementIndex), switchChunk.id, destChunkID).statements == stmt.Cases[j].Body.Statements
+//@     invariant [C03:sw-count-inv|~switch-distinct,~sw-cases-inv,~sw-default-inv] len(branchCases) == LC(stmt, i) && processedDefaultCase == (PD(stmt, i) || stmt.Cases[j].IsDefault) && (i > outer(i) ==> (len(branchCases) >= 1 || processedDefaultCase))
+//@     invariant [C03:sw-cases-inv|split3,~switch-distinct,~sw-default-inv] forall k int :: {LC(stmt, k)} (0 <= k && k < i && SwListed(stmt, k)) ==> (0 <= LC(stmt, k) && LC(stmt, k) < len(branchCases) && SwEntryOK(branchCases[LC(stmt, k)], stmt, k, remainingChunks, SwP(old(remainingChunks), curChunk, statementIndex), switchChunk.id))
+//@     invariant [C03:sw-default-inv|split2,~switch-distinct,~sw-cases-inv,~sw-noop-inv] processedDefaultCase ? (branchBehavior.defaultCase != nil && SwDestOK(remainingChunks, SwP(old(remainingChunks), curChunk, statementIndex), switchChunk.id, branchBehavior.defaultCase.destChunkID)
+//@           && (forall d int :: {NB(stmt, d)} (0 <= d && d < len(stmt.Cases) && (d < i || d == j) && stmt.Cases[d].IsDefault && NB(stmt, d) < len(stmt.Cases)) ==> SwBodyOK(SwChunk(remainingChunks, SwP(old(remainingChunks), curChunk, statementIndex), switchChunk.id, branchBehavior.defaultCase.destChunkID), stmt, d)))
+//@        : branchBehavior.defaultCase == nil
 //@     invariant [C03,C04:switch-inv] forall k int :: {branchCases[k]} (0 <= k && k < len(branchCases)) ==> (branchCases[k] != nil && allocated(branchCases[k]) && 0 <= branchCases[k].destChunkID && branchCases[k].destChunkID <= *chunkCounter)
 //@     invariant [C03,C04:switch-inv] branchBehavior.defaultCase != nil ==> (allocated(branchBehavior.defaultCase) && 0 <= branchBehavior.defaultCase.destChunkID && branchBehavior.defaultCase.destChunkID <= *chunkCounter)
 //@     decreases j - i
@@ -582,6 +654,9 @@ package emitter
 //@        && (len(finalChunks[prev(remainingChunks[0].id)].statements) == len(prev(remainingChunks[0].statements))
 //@            || !IsPlainStmt(prev(remainingChunks[0].statements)[len(finalChunks[prev(remainingChunks[0].id)].statements)])
 //@            || (len(finalChunks[prev(remainingChunks[0].id)].statements) == len(prev(remainingChunks[0].statements)) - 1 && IsTerminatorStmt(prev(remainingChunks[0].statements)[len(prev(remainingChunks[0].statements)) - 1])))
+// C04: nothing the author wrote is dropped: the statements after the one that ended the prefix wait in a chunk of their own
+//@     transition [C04:no-drop] len(finalChunks[prev(remainingChunks[0].id)].statements) >= len(prev(remainingChunks[0].statements)) - 1
+//@        || (len(remainingChunks) >= len(prev(remainingChunks)) && PostChunkOK(remainingChunks[len(prev(remainingChunks)) - 1], prev(remainingChunks[0]), len(finalChunks[prev(remainingChunks[0].id)].statements), prev(remainingChunks[0].returnID)))
 //@     use pigeonhole(finalChunks)
 //@     invariant [C04,C05:wl-count] chunkCounter >= 0 && len(finalChunks) + len(remainingChunks) == chunkCounter + 1 && len(finalChunks) >= 0
 //@     invariant [C04,C05:wl-pending] forall j int :: {remainingChunks[j]} (0 <= j && j < len(remainingChunks)) ==> (PendingOK(remainingChunks[j], chunkCounter) && fresh(remainingChunks[j]) && !indom(finalChunks, remainingChunks[j].id))
